@@ -800,7 +800,7 @@ def check_expiry_every_pass(chk, m, K, rule="T3.expiry-every-pass"):
     n = 0
     for p in ps:
         names = [callee_name(e) for k, e in calls_on(p)]
-        if "<indirect>" not in names or "get_next_task" not in names:
+        if "<indirect>" not in names or not any(n_ in ("get_next_task", "list_extract") for n_ in names):
             continue
         if _skips_expiry_legitimately(p, K, m):
             continue
